@@ -58,6 +58,14 @@ fn library_grid(ctx: &Ctx) {
     for dk in 1..=200usize {
         cases.push((4, 1 + (dk as u32 % 3), 1 + (dk as u32 % 2), dk, dk % 7, dk % 5));
     }
+    // parameters beyond 8 bits (a narrowing conversion somewhere would not show below 256)
+    for big in [255u32, 256, 257, 300, 511, 512, 1024] {
+        cases.push((2, big, 1, 32, 4, 8));
+        cases.push((2, 1, big, 32, 4, 8));
+        cases.push((4, big, 2, 17, 0, 1));
+    }
+    cases.push((1 << 16, 1, 1, 32, 3, 3));
+    cases.push((1 << 17, 2, 1, 16, 3, 3));
     cases.push((32768, 8, 1, 32, 6, 16));
     cases.push((32768, 8, 1, 32, 0, 32));
     ctx.note("library_grid", json!({"cases": cases.len(), "covers": "every (N,r) with 128*N*r <= 64 MiB, every (r,p), every (N,p) within budget, every dkLen 1..200, input lengths {0,1,63,64,65,200} and random"}));
